@@ -372,7 +372,7 @@ def model_remove_overlapping(m, md):
 # ----------------------------------------------------------------------
 # EmulsionTimeCourse explorer
 # ----------------------------------------------------------------------
-TC_OPS = ["app:0", "app:1", "app:2", "app:1@0.5", "app:2@2.0", "app:0@-1.0", "slice:0:2", "slice:1:", "slice:::-1", "ctor", "clear",
+TC_OPS = ["app:0", "app:1", "app:2", "app:1@0.5", "app:2@2.0", "app:0@-1.0", "app:1@0.0", "slice:0:2", "slice:1:", "slice:::-1", "ctor", "clear",
           "mut:T00", "mut:C1", "mut:S00", "appS:1", "clearS"]
 
 
@@ -484,7 +484,7 @@ class TcWorld:
 # ----------------------------------------------------------------------
 # DropletTrack / DropletTrackList explorer
 # ----------------------------------------------------------------------
-TR_OPS = ["app:0", "app:1", "app:4", "app:2", "app:0@0.5", "app:1@3.0", "app:3", "slice:0:2", "slice:1:", "ctor", "mut:K0", "mut:X0", "mut:S0",
+TR_OPS = ["app:0", "app:1", "app:4", "app:2", "app:0@0.5", "app:1@3.0", "app:0@-2.0", "app:1@0.0", "app:3", "slice:0:2", "slice:1:", "ctor", "mut:K0", "mut:X0", "mut:S0",
           "new-track", "remove_short:0", "remove_short:1.0", "list-slice:0:1"]
 
 
